@@ -159,7 +159,7 @@ func (e *env) handler(s *kit.Sess, c *kit.Call, w *kit.Writers) kit.Result {
 
 // ---- generators --------------------------------------------------------------------
 
-var texts = []string{"plain", "two words", "héllo wörld", "日本語 テキスト", `quo"te\back`, "x@y.z", "a,b;c:d", "trailing space ", "UPPER lower 123", "€ uro — dash", "tab\there"}
+var texts = []string{"plain", "two words", "héllo wörld", "日本語 テキスト", `quo"te\back`, "x@y.z", "a,b;c:d", "trailing space ", "UPPER lower 123", "€ uro — dash", "tab\there", "latin1 caf\xe9 \xff\xfe", "\xc3(", "nul-free\x01ctl"}
 
 func (e *env) text() string { return texts[e.rng.Intn(len(texts))] }
 
@@ -174,7 +174,7 @@ func (e *env) addrs() []imap.Address {
 	}
 	var l []imap.Address
 	for k := 1 + e.rng.Intn(3); k > 0; k-- {
-		a := imap.Address{Mailbox: []string{"bob", "alice.smith", "o'neil", "with space", "q\"uote"}[e.rng.Intn(5)], Host: e.atomish()}
+		a := imap.Address{Mailbox: []string{"bob", "alice.smith", "o'neil", "with space", "q\"uote", "ren\xe9", "jos\xc3\xa9"}[e.rng.Intn(7)], Host: e.atomish()}
 		if e.rng.Intn(2) == 0 {
 			a.Name = e.text()
 		}
@@ -282,7 +282,7 @@ func (e *env) bodyStructure(depth int, ext bool) imap.BodyStructure {
 		sp.Type, sp.Subtype = "audio", "x-weird+type"
 	}
 	if e.rng.Intn(2) == 0 {
-		sp.ID = "<cid" + fmt.Sprint(e.rng.Intn(99)) + "@x>"
+		sp.ID = "<cid" + fmt.Sprint(e.rng.Intn(99)) + []string{"", "", "\xe9", "ü"}[e.rng.Intn(4)] + "@x>"
 	}
 	if e.rng.Intn(2) == 0 {
 		sp.Description = e.text()
@@ -1064,7 +1064,7 @@ func (e *env) opNamespace() {
 		}
 		var l []imap.NamespaceDescriptor
 		for k := 1 + r.Intn(2); k > 0; k-- {
-			l = append(l, imap.NamespaceDescriptor{Prefix: []string{"", "INBOX.", "Shared/", "Üser/", "a\"b"}[r.Intn(5)], Delim: []rune{'/', '.', 0}[r.Intn(3)]})
+			l = append(l, imap.NamespaceDescriptor{Prefix: []string{"", "INBOX.", "Shared/", "Üser/", "a\"b", "raw\xe9/"}[r.Intn(6)], Delim: []rune{'/', '.', 0}[r.Intn(3)]})
 		}
 		return l
 	}
@@ -1186,7 +1186,7 @@ func main() {
 		Assumptions: []string{
 			"normalisation: envelope sender / reply-to default to From when nil; empty address lists, parameter maps and language lists are equivalent to NIL; parameter keys are lower-cased and the transfer encoding upper-cased with 7BIT as default; dates are compared to the second with their zone offset; a section's partial carries its offset only; APPENDLIMIT NIL is delivered as the maximum value",
 			"the backend supplies message/rfc822 data exactly for message/rfc822 parts and text data exactly for text/* parts, and extension data whenever BODYSTRUCTURE is requested (the server API's documented contract)",
-			"free-text fields are valid UTF-8 and do not contain RFC 2047 encoded-word look-alikes",
+			"free-text fields do not contain RFC 2047 encoded-word look-alikes, NUL, CR or LF (they may contain arbitrary other bytes, including invalid UTF-8)",
 		},
 		RaceFrames: []string{"imapclient.", "imapwire.", "imapserver."},
 		Shards:     func(string) int { return 12 },
